@@ -56,7 +56,7 @@ fn decode(data: &[u8]) -> Option<(Prog, Vec<(u64, u8)>)> {
         step += u.int_in_range(1..=60u64).ok()?;
         tape.push((step, u.int_in_range(0..=nthreads as u8 - 1).ok()?));
     }
-    Some((Prog { cfg: CCfg { hmode, capacity, batch, gmode }, filler, hot_init, threads }, tape))
+    Some((Prog { cfg: CCfg { hmode, capacity, batch, gmode, hot_pat: 0 }, filler, hot_init, threads }, tape))
 }
 
 fn quiet() {
